@@ -52,6 +52,10 @@ const (
 
 	// RawSocket header ID.
 	magic = 0x7f
+
+	// closeTimeout is how long Close waits for a send in progress before
+	// closing the socket under it.
+	closeTimeout = 5 * time.Second
 )
 
 // ConnectRawSocketPeer creates a new rawSocketPeer with the specified config,
@@ -189,7 +193,16 @@ func (rs *rawSocketPeer) Close() {
 	// Tell sendHandler to exit, and discard any queued messages. Do not close
 	// wr channel in case there are incoming messages during close.
 	rs.cancelSender()
-	<-rs.writerDone
+	t := time.NewTimer(closeTimeout)
+	select {
+	case <-rs.writerDone:
+		t.Stop()
+	case <-t.C:
+		// The sender is blocked writing to a peer that is not reading. Close
+		// the socket to unblock it.
+		_ = rs.conn.Close()
+		<-rs.writerDone
+	}
 	close(rs.wr)
 	for range rs.wr {
 	}
